@@ -24,8 +24,13 @@ pub fn run_case(tier: &str, seed: u64, idx: u64) -> CaseOut {
     let mut rng = Rng::new(mix(&[seed, idx], "c16"));
     watch::set_case_limit(std::time::Duration::from_secs(3000));
     let n_ops = if tier == "quick" { rng.range(80, 150) } else { rng.range(150, 400) } as usize;
-    let mut params = ExecParams::generate(&mut rng, idx, n_ops);
-    params.reopen_weight = 3;
+    // every 8th execution grows its manifest past one 32 KiB log block; only writes of that
+    // manifest at the block boundary are torn there
+    let fat = idx % 8 == 7;
+    let mut params = if fat { ExecParams::fat_manifest(&mut rng) } else { ExecParams::generate(&mut rng, idx, n_ops) };
+    if !fat {
+        params.reopen_weight = 3;
+    }
     let exec = crash::record_execution(&mut rng, &params);
     if let Some(why) = &exec.degenerate {
         out.inconclusive(format!("degenerate execution: {why}"));
@@ -34,9 +39,15 @@ pub fn run_case(tier: &str, seed: u64, idx: u64) -> CaseOut {
     let n = exec.journal.len();
     let mut replayer = Replayer::new(&dbutil::root_image());
     let mut nontrivial = 0u64;
+    let window: Option<std::collections::BTreeSet<usize>> =
+        if fat { Some(exec.manifest_block_boundary_writes().into_iter().collect()) } else { None };
     for k in 0..n {
         watch::tick();
         let entry = &exec.journal[k];
+        if window.as_ref().map_or(false, |w| !w.contains(&k)) {
+            replayer.step(entry);
+            continue;
+        }
         if let JOp::Write { data, .. } = &entry.op {
             let class = entry.op.class();
             let len = data.len();
